@@ -230,6 +230,21 @@ def compare(ctx, rule, instance, where, code, ref_poly, ref_dims=None, facts=Non
                data={'reference': alg.show(ref_poly, 1000)})
         return True
     syms, fnames = alg.leaf_syms(rem)
+    if 'searchsorted' in fnames and 'lininterp' in fnames:
+        # a hand-written linear interpolation against the library's: compare with the library's written out the same way
+        try:
+            d2 = alg.unfold_lininterp(diff)
+            if facts is not None:
+                d2 = facts.simplify(d2)
+            z2, rem2 = alg.is_zero(d2)
+        except RecursionError:
+            z2, rem2 = False, rem
+        if z2:
+            ctx.ok(rule, instance, where, (detail_ok or ('identity holds: %s' % alg.show(ref_poly, 160))) + ' (linear interpolation written out through searchsorted)',
+                   data={'reference': alg.show(ref_poly, 1000)})
+            return True
+        rem = rem2
+        syms, fnames = alg.leaf_syms(rem)
     allowed_s = set(vocab or ()) | {'INF', 'PI'}
     allowed_f = BASE_FNS | set(fns or ())
     foreign = {s for s in syms if s not in allowed_s and not s.startswith('unit:') and not s.startswith('idx:')} | {f for f in fnames if f not in allowed_f}
